@@ -62,3 +62,33 @@ register(
         "weights_given",
     ],
 )
+
+register(
+    "C02",
+    quick=1300,
+    thorough=30000,
+    level="fault_enumeration",
+    rule=(
+        "one run = one generated scenario (estimator class from the registry with peers in every estimator slot, "
+        "configuration, data, history template over F=failing fit, O=successful fit, P=predict/transform, S=score); "
+        "a dry run lists the N fault sites (task index, peer class, method, ordinal) reached by fit and EVERY single "
+        "site is failed once (quick; pairs of sites in consecutive fits in thorough), or every applicable "
+        "invalid-data kind is tried; after every operation parameters and caller arrays are compared, and the last "
+        "successful fit is compared bit-for-bit with a fresh estimator fitted under the same global seed, entropy "
+        "and (taped) thread schedule; non-trivial = at least one fault fired or invalid input was rejected, or a "
+        "multi-operation history ran; distinct = distinct (class, template, config, fault set, schedule digest)"
+    ),
+    assumptions=[
+        "fault sites are the fit/transform/predict calls on peer estimators (subclasses of real scikit-learn estimators) -- a failure inside mlinsights' own numpy code is only reached through invalid data",
+        "single-fault enumeration per scenario is exhaustive for the scenario's sites; scenarios themselves are sampled",
+        "QuantileMLPRegressor, ARTimeSeriesRegressor, mlbatch and search_rank cannot run in this environment (scikit-learn 1.9 / numpy 2 incompatibilities) and are not exercised",
+        "configurations documented to write into their input (copy_x=False, copy_X=False) are generated but exempt from the data-unchanged oracle",
+    ],
+    probes=[
+        "fault_while_other_task_in_flight",
+        "fault_swallowed",
+        "invalid_data_accepted",
+        "scenario_without_fault_site",
+        "preempt_inside_task",
+    ],
+)
